@@ -300,14 +300,23 @@ fn judge(rep: &mut Report, ctx: &mut Ctx, repo: &Repo, d: usize, job: &mut Job, 
             job.git_answers[wi] = Some(repo.parse_ids(d, &out));
         }
     }
-    let git_seq = job.git_answers[wi].clone();
+    let mut git_seq = job.git_answers[wi].clone();
     if let Some(gs) = &git_seq {
         let gset: BTreeSet<usize> = gs.iter().copied().collect();
         if gset != want {
-            // our reading of what git prints is wrong (or git's heuristics give up on this
-            // history): not a gitoxide matter, but it must be looked at
-            rep.bucket(&format!("GIT-VS-SPEC-SET-DIFF {}", w.mode.name()));
-            if ctx.explore {
+            // Without generation numbers git limits a walk with hidden tips by commit DATES (the
+            // "slop" heuristic of limit_list) and is known to print commits that are reachable from
+            // a hidden tip when a parent is newer than its child. Only on such skewed histories is a
+            // difference tolerated (git is no oracle there; the brute-force set semantics judges);
+            // anywhere else our reading of what git prints would be wrong.
+            let skewed = (0..dag.n()).any(|c| dag.parents[c].iter().any(|p| dag.time[*p] > dag.time[c]));
+            if skewed && !w.hidden.is_empty() {
+                rep.bucket(&format!("git != documented set on a skewed history with hidden tips ({})", w.mode.name()));
+                rep.outside_domain(&format!(
+                    "git rev-list prints {gs:?} but reachable-minus-hidden is {want:?} (clock skew, git's date-based limiting): {op}"
+                ));
+                git_seq = None;
+            } else if ctx.explore {
                 eprintln!("git-vs-spec: {op}\n   git={gs:?}\n   spec={want:?}");
             } else {
                 panic!("SPEC DEFECT: git rev-list prints the set {gset:?}, the transcribed semantics say {want:?} for {op}");
@@ -340,6 +349,12 @@ fn judge(rep: &mut Report, ctx: &mut Ctx, repo: &Repo, d: usize, job: &mut Job, 
                     break 'outer;
                 }
             }
+        }
+        if let (Some(gs), false, true) = (&git_seq, w.mode.first_parent(), cgname == "none") {
+            // validate the Lean transcription of git's sort (Spec.C47.gitTopoOrder) against the git
+            // binary: the "observation" of this operation is what GIT printed
+            let gop = op.replacen("walk ", "gitorder ", 1);
+            rep.case(&gop, &format!("seq:{}", join_idx(gs)), true);
         }
         if let Some(gs) = &git_seq {
             if w.mode.first_parent() {
@@ -583,7 +598,7 @@ fn main() {
     let mut rep = Report::new("C47", &args);
     let mut r = Rng::new(args.seed);
     let scratch = Scratch::new("c47");
-    let mut ctx = Ctx { git_budget: args.budget(260, 3_500), explore: std::env::var("C47_EXPLORE").is_ok() };
+    let mut ctx = Ctx { git_budget: args.budget(260, 2_000), explore: std::env::var("C47_EXPLORE").is_ok() };
     if let Some(ops) = replay_ops(&args) {
         replay(&mut rep, &mut ctx, &scratch, &ops);
         rep.finish();
@@ -597,7 +612,7 @@ fn main() {
         let commit_tree = name == "corpus/doc-sample";
         jobs.push(Job { dag, bucket: name.into(), walks, partial, commit_tree, git_answers: vec![None; nw], plain: vec![None; nw] });
     }
-    let dags = args.budget(45, 900);
+    let dags = args.budget(45, 450);
     for k in 0..dags {
         let max_n = if r.chance(1, 5) { 40 } else { 18 };
         let (dag, bucket) = gen_dag(&mut r, max_n);
